@@ -47,6 +47,10 @@ class HangDetected(Exception):
     pass
 
 
+# accumulated across every run_virtual() of this process: what loop exception handlers were told
+LOOP_EVENTS: List[str] = []
+
+
 class VirtualLoop(asyncio.SelectorEventLoop):
     def __init__(self, tie_seed: Optional[int] = None, max_iterations: int = 2_000_000):
         import weakref
@@ -62,6 +66,15 @@ class VirtualLoop(asyncio.SelectorEventLoop):
         self._tie_rng = random.Random(tie_seed) if tie_seed is not None else None
         self._main_task: Optional[asyncio.Task] = None
         self.idle_jumps = 0
+        # secondary monitor: everything the loop's exception handler is told about ("Task exception was
+        # never retrieved", "Task was destroyed but it is pending", exceptions in callbacks, ...)
+        self.exc_events: List[str] = []
+        self.set_exception_handler(self._record_exc)
+
+    def _record_exc(self, loop, context):
+        msg = context.get("message", "")
+        exc = context.get("exception")
+        self.exc_events.append(f"{msg}: {exc!r}"[:300])
 
     # --- clock -----------------------------------------------------------
     def time(self) -> float:
@@ -160,6 +173,10 @@ def run_virtual(
             if loop.hung:
                 raise HangDetected(loop.hang_reason)
             raise
+        finally:
+            import gc
+            gc.collect()   # "Task was destroyed but it is pending" is reported at collection time
+            LOOP_EVENTS.extend(loop.exc_events)
         if loop.hung:
             raise HangDetected(loop.hang_reason)
         return res, loop
